@@ -8,6 +8,7 @@ package main
 
 import (
 	"bufio"
+	"math/rand"
 	"path/filepath"
 	"encoding/json"
 	"fmt"
@@ -128,6 +129,30 @@ func checkPosition(in buildInput, be *scriggo.BuildError) (sig, desc string) {
 	pos := be.Position()
 	if pos.Start < 0 || pos.End < pos.Start-1 || pos.Start > len(src) || pos.End > len(src) {
 		return "offset-out-of-file", fmt.Sprintf("%s start=%d end=%d len=%d: %s", path, pos.Start, pos.End, len(src), be.Message())
+	}
+	// an error about a rendered, imported or extended path points at the statement naming it
+	msg := be.Message()
+	if strings.Contains(msg, "cycle") || strings.Contains(msg, "does not exist") {
+		end := pos.End + 1
+		if end > len(src) {
+			end = len(src)
+		}
+		at := src[pos.Start:end]
+		if !strings.Contains(at, "render") && !strings.Contains(at, "import") && !strings.Contains(at, "extends") && !strings.Contains(at, "\"") {
+			return "position-not-on-statement", fmt.Sprintf("%s start=%d end=%d holds %q: %s", path, pos.Start, pos.End, at, msg)
+		}
+	}
+	// the errors planted by chainInput: the offsets delimit the expression in the named file
+	for _, planted := range []string{"undefinedName", "1 + \"a\""} {
+		if strings.Contains(msg, planted) {
+			end := pos.End + 1
+			if end > len(src) {
+				end = len(src)
+			}
+			if src[pos.Start:end] != planted {
+				return "position-not-on-expression", fmt.Sprintf("%s start=%d end=%d holds %q, not %q: %s", path, pos.Start, pos.End, src[pos.Start:end], planted, msg)
+			}
+		}
 	}
 	ln, cl := linecol(src, pos.Start)
 	if ln != pos.Line || cl != pos.Column {
@@ -452,6 +477,54 @@ func sweepInputs(c *Ctx) []buildInput {
 			ins = append(ins, tmplInput("index"+extOfFormat[fm], s, false))
 		}
 	}
+	// every prefix of every end tag spelling of a script or style element, in code and inside
+	// string literals, comments and JSON: the source ends exactly at "</script", "</styl", ...
+	for _, body := range []string{"var a = 1;", "var a = \"x", "var a = 'x", "// c ", "/* c ", "{\"k\": \"v"} {
+		for _, open := range []string{"<script>", "<script type=\"application/ld+json\">", "<SCRIPT defer>"} {
+			for _, end := range []string{"</script>", "</SCRIPT >", "</script\n>"} {
+				for cut := 0; cut <= len(end); cut++ {
+					for _, fm := range []int{1, 5} {
+						ins = append(ins, tmplInput("index"+extOfFormat[fm], open+body+end[:cut], false))
+					}
+				}
+			}
+		}
+	}
+	for _, body := range []string{"p { color: red }", "p { font-family: \"x", "a { background: url('x", "/* c "} {
+		for _, end := range []string{"</style>", "</STYLE >", "</style\n>"} {
+			for cut := 0; cut <= len(end); cut++ {
+				for _, fm := range []int{1, 5} {
+					ins = append(ins, tmplInput("index"+extOfFormat[fm], "<style>"+body+end[:cut], false))
+				}
+			}
+		}
+	}
+	// every truncation of generated HTML documents with script and style elements
+	ndocs := 8
+	if c.Thorough() {
+		ndocs = 150
+	}
+	for k := 0; k < ndocs; k++ {
+		doc := ctxDocument(r)
+		if k%2 == 1 {
+			doc = fragmentDocument(r)
+		}
+		fm := 1
+		if r.Intn(5) == 0 {
+			fm = 5
+		}
+		for cut := 0; cut <= len(doc); cut++ {
+			ins = append(ins, tmplInput("index"+extOfFormat[fm], doc[:cut], false))
+		}
+	}
+	// chains and cycles of files that render, import and extend each other
+	nchains := 150
+	if c.Thorough() {
+		nchains = 6000
+	}
+	for k := 0; k < nchains; k++ {
+		ins = append(ins, chainInput(r))
+	}
 	// every truncation of corpus files
 	nfiles := 6
 	if c.Thorough() {
@@ -557,6 +630,76 @@ func sweepInputs(c *Ctx) []buildInput {
 		}
 	}
 	return ins
+}
+
+// chainInput builds a set of files that render, import or extend each other
+// along a chain, possibly closed into a cycle entered from outside it, with
+// texts of different lengths in front of the statements and, sometimes, an
+// error inside a file that is longer or shorter than the file including it.
+func chainInput(r *rand.Rand) buildInput {
+	ext := extOfFormat[[]int{1, 1, 0, 5}[r.Intn(4)]]
+	n := 2 + r.Intn(4)
+	names := []string{"index" + ext}
+	for i := 1; i < n; i++ {
+		names = append(names, string(rune('a'+i-1))+ext)
+	}
+	pad := func() string {
+		switch r.Intn(4) {
+		case 0:
+			return ""
+		case 1:
+			return strings.Repeat("line of text\n", r.Intn(6))
+		case 2:
+			return strings.Repeat("é ", r.Intn(20)) + "\n"
+		}
+		return strings.Repeat("x", r.Intn(120))
+	}
+	// target of the statement of the last file: nothing, or a file of the chain (a cycle)
+	files := map[string]string{}
+	kind := r.Intn(3) // 0 render, 1 import, 2 mixed
+	for i, name := range names {
+		var b strings.Builder
+		next := ""
+		if i+1 < len(names) {
+			next = names[i+1]
+		} else if r.Intn(2) == 0 {
+			next = names[r.Intn(len(names))] // closes a cycle, possibly not through index
+		}
+		useImport := kind == 1 || kind == 2 && r.Intn(2) == 0
+		if useImport && next != "" {
+			// imports come first in a file
+			b.WriteString("{% import \"" + next + "\" %}\n")
+			b.WriteString(pad())
+			b.WriteString("{% macro M" + fmt.Sprint(i) + " %}m{% end %}\n")
+		} else {
+			b.WriteString(pad())
+			if next != "" {
+				b.WriteString("{{ render \"" + next + "\" }}")
+			}
+			b.WriteString(pad())
+		}
+		switch r.Intn(12) {
+		case 0:
+			b.WriteString("{{ undefinedName }}")
+		case 1:
+			b.WriteString("{% if %}")
+		case 2:
+			b.WriteString("{{ 1 + \"a\" }}")
+		case 3:
+			b.WriteString("{{ render \"missing" + ext + "\" }}")
+		}
+		b.WriteString(pad())
+		files[name] = b.String()
+	}
+	if r.Intn(6) == 0 {
+		// extends: the first file extends the second one
+		files[names[0]] = "{% extends \"" + names[1] + "\" %}\n{% macro Body %}" + pad() + "{% end %}\n"
+	}
+	hx := map[string]string{}
+	for n, s := range files {
+		hx[n] = Hx(s)
+	}
+	return buildInput{Kind: "template", Name: names[0], Files: hx}
 }
 
 func inputDetail(in buildInput, r workerResult) map[string]any {
